@@ -267,7 +267,7 @@ func c13AddChild(out *emit.Out, mu *sync.Mutex, ch *c13Child) {
 		ci.Run = r.Run
 		obs := map[string]interface{}{"tags": r.Tags, "stream_len": len(r.Stream), "hs_cli": r.HsCli, "hs_srv": r.HsSrv,
 			"stuck": r.Stuck, "active": r.Active, "bad_write": r.BadWrite, "panic": r.Panic, "note": r.Note, "tail": r.Tail, "stalled": r.Stalled}
-		out.Add(emit.Case{Scenario: scen, Trivial: len(r.Tags) < 2 && in.Scenario != "close-handshake" && in.Scenario != "close-blocked" && in.Scenario != "deadline-wakes" && in.Scenario != "short-reads" && in.Scenario != "accessors" && in.Scenario != "cache" && in.Scenario != "deadlines",
+		out.Add(emit.Case{Scenario: scen, Trivial: len(r.Tags) < 2 && in.Scenario != "close-handshake" && in.Scenario != "close-blocked" && in.Scenario != "deadline-wakes" && in.Scenario != "short-reads" && in.Scenario != "hs-timeout" && in.Scenario != "accessors" && in.Scenario != "cache" && in.Scenario != "deadlines",
 			Input: ci, Observed: obs, Coq: c13CoqStream(r)})
 	}
 	var sigs []string
@@ -396,6 +396,7 @@ func runC13(p params) error {
 					mk("short-reads", st, 8, 3)
 				}
 				if st == "tlcp" {
+					mk("hs-timeout", st, 4, 4)
 					mk("deadline-wakes", st, 2, 3)
 					mk("deadline-wakes", st, 8, 3)
 				}
